@@ -126,11 +126,11 @@ def destructor(run, f, det):
     okl = len(locks) == 1
     if okl:
         src = strip_wrappers(tr.norm(tr.call_args(locks[0].idx)[0]))
-        okl = src[0] == "call" and src[2] == "wait_for_graph"
+        okl = src[0] == "call" and src[2] == det.graph_fn
     run.require(okl, "O15.3", "drop-locks-same-graph", "WaitForGuard::drop does not lock wait_for_graph()", "locks wait_for_graph()")
     # the same static in ask
     dl = [k for k in live_calls(det.body) if fn_of(k).get("name") == "lock" and "Mutex" in (fn_of(k).get("def") or "")]
-    oka = len(dl) == 1 and strip_wrappers(det.tr.norm(det.tr.call_args(dl[0].idx)[0]))[:3:2] == ("call", "wait_for_graph")
+    oka = len(dl) == 1 and strip_wrappers(det.tr.norm(det.tr.call_args(dl[0].idx)[0]))[:3:2] == ("call", det.graph_fn)
     run.require(oka, "O15.3", "ask-locks-same-graph", "ask does not lock wait_for_graph()", "ask locks wait_for_graph()")
     # one insert / one remove in the crate
     ins = [(b.name, loc_of(b, k)) for b, k in all_calls(f) if deadlock.is_map_method(f, k, "insert")]
@@ -152,7 +152,7 @@ def panic_condition(run, f, det):
         if blk.term["k"] != "switch" or blk.idx not in cfg.live:
             continue
         s = strip_wrappers(tr.norm(tr.operand(blk.term["discr"])))
-        is_cond = s == ("call", hp, "has_path") or (s[0] == "binop" and s[1] == "Eq" and blk.idx in det.region | {det.acquire})
+        is_cond = s == ("call", hp, det.hp_def) or (s[0] == "binop" and s[1] == "Eq" and blk.idx in det.region | {det.acquire})
         if is_cond:
             t = blk.term
             tt = [tgt for v, tgt in t["arms"] if int(v) != 0] or [t["otherwise"]]
